@@ -1355,6 +1355,25 @@ where
             for (i, it) in items.iter().enumerate() {
                 let bytes = &stream[spans[i].0..spans[i].1];
                 let how = format!("{:?}, document {i}", sc.de);
+                // The value a document is deserialised over (in-place lanes): the fixed unrelated one,
+                // or - three documents in four, if it parses - one *related* to the incoming string:
+                // its ASCII-upper-cased or ASCII-lower-cased spelling, or the very same PURL. What
+                // was in place before must not shine through, however similar it is (r13c16-2 kept a
+                // value that "is already in place" by a case-insensitive comparison).
+                let previous = match (sc.de, &it.string) {
+                    (DeKind::InPlace { .. }, Some(s)) if (i + s.len()) % 4 != 0 && s.is_char_boundary(4.min(s.len())) && s.len() > 4 => {
+                        let (head, tail) = s.split_at(4);
+                        let related = match (i + s.len()) % 4 {
+                            1 => format!("{head}{}", tail.to_ascii_uppercase()),
+                            2 => format!("{head}{}", tail.to_ascii_lowercase()),
+                            _ => s.clone(),
+                        };
+                        guarded(|| GenericPurl::<T>::from_str(&related).ok())
+                            .map_err(|p| violation!("C16.panic_in_parse", "parsing {related:?} (previous value of the in-place lane) panicked: {p}"))?
+                            .or_else(|| previous.clone())
+                    },
+                    _ => previous.clone(),
+                };
                 let got: Result<GenericPurl<T>, String> = guarded(|| match (sc.de, &it.string) {
                     (DeKind::Slice, _) => serde_json::from_slice::<W<GenericPurl<T>, K>>(bytes).map(|w| w.0).map_err(|e| e.to_string()),
                     (DeKind::Str, _) => match std::str::from_utf8(bytes) {
